@@ -693,7 +693,7 @@ class Plan:
             self.stim_stats["transitions"] += cov3["stats"]["states"]
             tri = [c for c in cov3["cases"] if len(c["user"]) == 3]
             recs += tri if n_triples >= len(tri) else rng.sample(tri, n_triples)
-        shapes = {(True, False): ("i16", [-3, -2, -1, 0, 1, 2, 3, 4, 5, 6]),               # gapless, negative minimum
+        shapes = {(True, False): ("i16", [-3, -2, -1, 0, 1, 2, 3, 4]),     # gapless, negative minimum, 2^3 variants (minimum not a multiple)
                   (False, False): ("i8", [-10, -5, -4, 3, 4, 5, 6, 7, 8, 20]),             # four runs, a later negative run
                   (False, True): ("i8", [-7, -6, 2])}                                       # holes, num_values * size <= 8
         for (gapless, small), (r, reals) in shapes.items():
